@@ -338,7 +338,16 @@ def _v_sleep(sec):
         vp.idle_polls = 0
         names = sorted(vp.jobs)
         alts = w.sim.finish_alternatives(names)
+        k = int(w.scen.get("stutter", 0))
+        if vp.data.get("stutters", 0) < k:
+            # "nothing finishes at this poll" (bounded per process: the queue is processed again while
+            # the same jobs are still running)
+            alts = list(alts) + ["none"]
         alt = vp.sync(Op("poll", ",".join(names), alts=alts))
+        if alt == "none":
+            vp.data["stutters"] = vp.data.get("stutters", 0) + 1
+            vp.observe("stutter")
+            return
         fin = alt[4:].split("+") if alt.startswith("fin:") else []
         for n in fin:
             vp.jobs[n].finish()
